@@ -436,23 +436,32 @@ func zzH13_index_badtype() {
 // ---- H13.1e: slicing and indexing a range ----
 
 // zzH13_slice_range: range(a, a+n*s, s)[lo:hi:st] denotes the elements
-// r[idx_k] of the CPython reference; r[i] = a + i*s. Bounds: n <= maxlen,
-// |a| <= 1000, 1 <= |s| <= 5, 1 <= |st| <= 5 (rangeLen divides by s*st), lo/hi
-// any int32 or None. (Overflowing ranges: C10.)
+// r[idx_k] of the CPython reference; r[i] = a + i*s. a, lo, hi symbolic
+// (|a| <= 2^20; lo/hi any int32 or None); the range step s and the stride st
+// are structural choices from small sets, because rangeLen divides by s*st
+// (64-bit division by a symbolic divisor does not finish). Overflowing ranges: C10.
 //
 //verif:unwind 40
 func zzH13_slice_range() {
-	n := zzChoice("n", zzParam("maxlen_range", 3, 5)+1)
+	thorough := zzParam("range_full", 0, 1) == 1
+	ns := []int{0, 3}
+	svals := []int{-1, 2}
+	stvals := []int{0, -2} // 0 = None
+	if thorough {
+		ns = []int{0, 1, 2, 3, 4, 5}
+		svals = []int{-3, -1, 1, 2}
+		stvals = []int{0, -2, -1, 1, 3}
+	}
+	n := ns[zzChoice("n", len(ns))]
+	s := svals[zzChoice("s", len(svals))]
 	a := zzInt("a")
-	s := zzInt("s")
-	zzAssume(zzAnd(a >= -1000, a <= 1000))
-	zzAssume(zzAnd(zzAnd(s >= -5, s <= 5), s != 0))
+	zzAssume(zzAnd(a >= -1<<20, a <= 1<<20))
 	r := rangeValue{start: a, stop: a + n*s, step: s, len: n}
 	lo := zzOpt("lo", 2)
 	hi := zzOpt("hi", 2)
-	st := zzOpt("step", 2)
-	if !st.none {
-		zzAssume(zzAnd(zzAnd(int64(st.w.lo) >= -5, int64(st.w.lo) <= 5), int64(st.w.lo) != 0))
+	st := zzOperand{v: None, none: true}
+	if c := stvals[zzChoice("st", len(stvals))]; c != 0 {
+		st = zzOperand{v: MakeInt(c), w: zzWOf64(int64(c))}
 	}
 	got, err := slice(r, lo.v, hi.v, st.v)
 	zzAssert(err == nil, "C13.slice.int32_operands_accepted")
